@@ -577,6 +577,16 @@ fn run_panic_soak(t: &[&str]) -> String {
     if q.panics() != expected_panics {
         problems.push(format!("panics() = {} after {} panics", q.panics(), expected_panics));
     }
+    // the counters at this quiescent moment: submitted = #Ok emits, drained = #metrics handed to the wrapped sink
+    {
+        let handed = rig.gate.m.lock().unwrap().entered as u64;
+        if q.submitted() != n as u64 || q.drained() != handed || q.queued() != q.submitted().saturating_sub(q.drained()) {
+            problems.push(format!(
+                "at quiescence after {} Ok emits of which the wrapped sink was handed {}: submitted() = {}, drained() = {}, queued() = {}",
+                n, handed, q.submitted(), q.drained(), q.queued()
+            ));
+        }
+    }
     {
         let st = rig.gate.m.lock().unwrap();
         for (i, (m, _, _)) in st.log.iter().enumerate() {
@@ -673,6 +683,116 @@ fn run_bound(t: &[&str]) -> String {
     format!("acc {} ref {} q {}", acc, refused, queued)
 }
 
+/// `QW n <cap|u>`: an OUTER queuing sink whose wrapped sink forwards into a handle of an INNER queuing sink (chained
+/// sinks: the producer of the inner one is the outer one's worker thread).  `QW h u`: the error handler of a queuing
+/// sink reports every failure by emitting a counter through a clone of the same sink (again the producer is a worker
+/// thread).  An emit that returns Ok is delivered, whoever the calling thread is.
+fn run_worker_thread_emits(t: &[&str]) -> String {
+    struct Fwd(QueuingMetricSink, Arc<Mutex<Vec<String>>>);
+    impl MetricSink for Fwd {
+        fn emit(&self, metric: &str) -> io::Result<usize> {
+            let r = self.0.emit(metric);
+            self.1.lock().unwrap().push(match &r {
+                Ok(n) if *n == metric.len() => "k".to_string(),
+                Ok(n) => format!("k!{}", n),
+                Err(_) => "f".to_string(),
+            });
+            r
+        }
+    }
+    impl UnwindSafe for Fwd {}
+    impl RefUnwindSafe for Fwd {}
+    struct Rec(Arc<Mutex<Vec<String>>>);
+    impl MetricSink for Rec {
+        fn emit(&self, metric: &str) -> io::Result<usize> {
+            self.0.lock().unwrap().push(metric.to_string());
+            if metric.starts_with("fail.") {
+                Err(io::Error::new(io::ErrorKind::Other, Payload(1)))
+            } else {
+                Ok(metric.len())
+            }
+        }
+    }
+    let cap = if t[2] == "u" { None } else { Some(t[2].parse::<usize>().unwrap()) };
+    let wait_for = |log: &Arc<Mutex<Vec<String>>>, n: usize| {
+        let deadline = Instant::now() + Duration::from_secs(3);
+        while log.lock().unwrap().len() < n && Instant::now() < deadline {
+            thread::sleep(Duration::from_millis(2));
+        }
+    };
+    let mut problems: Vec<String> = vec![];
+    if t[1] == "n" {
+        let seen = Arc::new(Mutex::new(vec![]));
+        let inner = match cap {
+            Some(c) => QueuingMetricSink::with_capacity(Rec(seen.clone()), c),
+            None => QueuingMetricSink::from(Rec(seen.clone())),
+        };
+        let answers = Arc::new(Mutex::new(vec![]));
+        let outer = QueuingMetricSink::from(Fwd(inner.clone(), answers.clone()));
+        let mut sent = vec![];
+        for i in 0..12 {
+            let m = format!("chained.{}:1|c", i);
+            if outer.emit(&m).is_ok() {
+                sent.push(m);
+            }
+            // one at a time, so that a small inner queue is never full: every forwarded emit must be accepted
+            wait_for(&answers, sent.len());
+            wait_for(&seen, sent.len());
+        }
+        let answers = answers.lock().unwrap().clone();
+        let seen = seen.lock().unwrap().clone();
+        if answers.iter().any(|a| a != "k") {
+            problems.push(format!("the inner sink answered {:?} to emits made from the outer sink's worker thread (room in its queue every time)", answers));
+        }
+        if seen != sent {
+            problems.push(format!(
+                "{} metrics were accepted with Ok by the inner queuing sink (called from another queuing sink's worker thread) but its wrapped sink received {:?}",
+                sent.len(),
+                seen
+            ));
+        }
+    } else {
+        let seen = Arc::new(Mutex::new(vec![]));
+        let slot: Arc<Mutex<Option<QueuingMetricSink>>> = Arc::new(Mutex::new(None));
+        let answers = Arc::new(Mutex::new(vec![]));
+        let (slot2, answers2) = (slot.clone(), answers.clone());
+        let q = QueuingMetricSink::builder()
+            .with_error_handler(move |_e| {
+                let h = slot2.lock().unwrap().clone();
+                if let Some(h) = h {
+                    let r = h.emit("sink.errors:1|c");
+                    answers2.lock().unwrap().push(r.is_ok());
+                }
+            })
+            .build(Rec(seen.clone()));
+        *slot.lock().unwrap() = Some(q.clone());
+        let script = ["a:1|c", "fail.one:1|c", "b:1|c", "fail.two:1|c", "c:1|c"];
+        for m in script {
+            let _ = q.emit(m);
+        }
+        wait_for(&seen, 7);
+        let seen = seen.lock().unwrap().clone();
+        let answers = answers.lock().unwrap().clone();
+        let reported = seen.iter().filter(|m| m.as_str() == "sink.errors:1|c").count();
+        let oks = answers.iter().filter(|x| **x).count();
+        if answers.len() != 2 {
+            problems.push(format!("the handler ran {} times for 2 failures", answers.len()));
+        }
+        if reported != oks {
+            problems.push(format!(
+                "the error handler emitted through a clone of the same sink {} times with Ok (on the worker thread), the wrapped sink received {} of them: {:?}",
+                oks, reported, seen
+            ));
+        }
+        let own: Vec<&String> = seen.iter().filter(|m| m.as_str() != "sink.errors:1|c").collect();
+        if own.len() != script.len() || own.iter().zip(script.iter()).any(|(a, b)| a.as_str() != *b) {
+            problems.push(format!("the metrics emitted by the caller arrived as {:?}", own));
+        }
+        std::mem::forget(q); // the handler keeps a clone alive anyway (cycle): one leaked worker per case
+    }
+    if problems.is_empty() { "ok".to_string() } else { format!("bad {}", problems.join(" / ")) }
+}
+
 pub fn run_case(line: &str) -> String {
     let t: Vec<&str> = line.split_whitespace().collect();
     if t[0] == "QB" {
@@ -686,6 +806,9 @@ pub fn run_case(line: &str) -> String {
     }
     if t[0] == "QH" {
         return run_sched(&t);
+    }
+    if t[0] == "QW" {
+        return run_worker_thread_emits(&t);
     }
     if t[0] == "QD" {
         // the same scripted history with ANOTHER queuing sink alive in the process (nothing of one sink's behaviour may
